@@ -22,12 +22,12 @@ def run(tier, replay=None):
         ("MC_Transport", "MC_Transport_q3.cfg", {"workers": 8, "heap": "6g"}, "pass"),
         ("MC_Transport", "MC_Transport_t.cfg", {"workers": 8, "heap": "6g"}, "pass"),
     ])
-    groups = ["G_bcast_fixed", "G_bcast_eph", "G_udp_eph", "G_tcp_eph", "G_mixed_fixed"]
+    groups = ["G_bcast_fixed", "G_bcast_eph", "G_udp_eph", "G_tcp_eph", "G_mixed_fixed", "G_mixed_eph"]
     if tier == "thorough":
-        groups += ["G_udp_fixed", "G_mixed_eph"]
+        groups += ["G_udp_fixed"]
     n = 36 if tier == "quick" else 400
     total, drift, _ = transport.run_groups(v, groups, n, lengths=True)
     v.coverage["rule"] = ("behaviours of Transport.tla (TLC -simulate, %d per group) over all three delivery paths, controller answers of 1..2 datagrams from 8 classes + silence/refused/reset with delays 0..T, "
-                          "plus one hand-made behaviour per wrong length and path (wrong-length datagram, then the genuine reply); up to 2 strays from 5 classes injected by strangers into the call's source port; each replayed on real sockets and validated by Trace_Transport. distinct = scenarios" % n)
+                          "plus one hand-made behaviour per datagram class x {ordinary call, status call} x path and per wrong length and path (wrong-length datagram, then the genuine reply); up to 2 strays from 5 classes injected by strangers into the call's source port; each replayed on real sockets and validated by Trace_Transport. distinct = scenarios" % n)
     v.coverage["checker_cmd"] = "tlc MC_Transport (3 exhaustive configs); tlc -simulate MC_TransportGen; tlc Trace_Transport (StateDeque)"
     return v.finish()
